@@ -157,6 +157,9 @@ def run(ctx):
   fi = _RankNames(ctx, ctx.func(fq))
   fn = fi.node
   own.check_borrowed(ctx, fq, {'note_sequence': own.NS}, {}, ['note_sequence'])
+  from sa import pitfalls
+  pitfalls.apply(ctx, 'PITFALL', [ctx.func(fq)], ['dead-parameter'], {
+      'dead-parameter': 'apply_sustain_control_changes(sequence, sustain_control_number=n) must act on controller n'})
   rank_in_sort_key(ctx, fi)       # location-independent rules first
   note_off_removes_one(ctx, fi)
   threshold_scenarios(ctx, fi, 'THRESHOLD/scenarios')
